@@ -22,7 +22,36 @@ pub const SERIALIZERS: &[&str] = &[
     "toml_edit::ser::to_document",
     "toml::Value::try_from",
     "toml::Table::try_from",
+    // alias entry points (run in a seeded subset of the scenarios, see Scenario::alias)
+    "toml_edit::ser::to_vec",
+    "toml::ser::Serializer::new",
+    "toml::ser::Serializer::pretty",
 ];
+
+/// alias serializers occupy the scenario's alias bits above the alias routes
+pub fn ser_alias_bit(name: &str) -> Option<u32> {
+    let base = crate::routes::ALIAS_ROUTES.len() as u32;
+    match name {
+        "toml_edit::ser::to_vec" => Some(1 << base),
+        "toml::ser::Serializer::new" => Some(1 << (base + 1)),
+        "toml::ser::Serializer::pretty" => Some(1 << (base + 2)),
+        _ => None,
+    }
+}
+pub const ALIAS_BITS: u32 = crate::routes::ALIAS_ROUTES.len() as u32 + 3;
+
+pub fn ser_on(sc: &Scenario, name: &str) -> bool {
+    match ser_alias_bit(name) {
+        Some(bit) => {
+            if sc.only.is_empty() {
+                sc.alias & bit != 0
+            } else {
+                sc.only.iter().any(|o| o == name)
+            }
+        }
+        None => sc.wants(name),
+    }
+}
 
 pub enum SerOut {
     Text(String),
@@ -38,6 +67,18 @@ pub fn run_serializer<T: Serialize>(name: &str, v: &T) -> Result<SerOut, String>
         "toml_edit::ser::to_document" => toml_edit::ser::to_document(v).map(|d| SerOut::Text(d.to_string())).map_err(|e| e.to_string()),
         "toml::Value::try_from" => toml::Value::try_from(v).map(SerOut::Value).map_err(|e| e.to_string()),
         "toml::Table::try_from" => toml::Table::try_from(v).map(|t| SerOut::Value(toml::Value::Table(t))).map_err(|e| e.to_string()),
+        "toml_edit::ser::to_vec" => match toml_edit::ser::to_vec(v) {
+            Ok(b) => Ok(SerOut::Text(String::from_utf8_lossy(&b).into_owned())),
+            Err(e) => Err(e.to_string()),
+        },
+        "toml::ser::Serializer::new" => {
+            let mut buf = String::new();
+            v.serialize(toml::ser::Serializer::new(&mut buf)).map(|()| SerOut::Text(buf)).map_err(|e| e.to_string())
+        }
+        "toml::ser::Serializer::pretty" => {
+            let mut buf = String::new();
+            v.serialize(toml::ser::Serializer::pretty(&mut buf)).map(|()| SerOut::Text(buf)).map_err(|e| e.to_string())
+        }
         other => Err(format!("HARNESS: unknown serializer {other}")),
     }
 }
@@ -110,7 +151,7 @@ pub fn execute(sc: &Scenario, verbose: bool) -> RunOut {
     };
 
     for name in SERIALIZERS {
-        if !sc.wants(name) {
+        if !ser_on(sc, name) {
             continue;
         }
         for fault in &faults {
